@@ -115,7 +115,43 @@ def hex_roundtrip_cases(rng, tier):
             cases.append("display %s %s" % (v, hx(b)))
             if val % 8 == 0:
                 cases.append("parts %s %s" % (v, hx(b)))
+        # literals that are new in the current source (empty on the audited tree): every byte sequence at every offset of the
+        # binary form, every small integer at every header byte; through every direction
+        for b in dict_bins(rng, v):
+            s = ref_format(v, b, True)
+            cases.append("display %s %s" % (v, hx(b)))
+            cases.append("parts %s %s" % (v, hx(b)))
+            cases.append("frombytes %s %s" % (v, hx(b)))
+            cases.append("clearcks %s %s" % (v, hx(b)))
+            cases.append("fmt %s %s with %s" % (v, hx(b), hx(rng.bytes(ls))))
+            cases.append("storebytes %s %s %s" % (v, hx(b), hx(rng.bytes(size))))
+            cases.append("parse %s auto %s" % (v, hx(s.encode())))
+            cases.append("parse %s %s %s" % (v, rng.choice(["auto", "empty"]), hx(s[2:].lower().encode())))
+            cases.append("fromstr %s %s" % (v, hx(mixed_case(rng, s).encode())))
     return cases
+
+
+def dict_bins(rng, v):
+    import srcdict
+    dic = srcdict.new_literals()
+    size, ck = VARIANTS[v][3], VARIANTS[v][0]
+    out = []
+    for seq in dic["seqs"]:
+        if len(seq) > size:
+            continue
+        base = bytearray(plausible_bin(rng, v))
+        offs = list(range(0, size - len(seq) + 1))
+        for off in offs:
+            b = bytearray(base)
+            b[off:off + len(seq)] = bytes(seq)
+            out.append(bytes(b))
+    for n in dic["ints"]:
+        if n < 256:
+            for pos in list(range(ck + 2)) + [ck + 2, size - 1]:
+                b = bytearray(plausible_bin(rng, v))
+                b[pos] = n
+                out.append(bytes(b))
+    return out[:4000]
 
 
 def affixed(good):
@@ -193,6 +229,19 @@ def hex_malformed_cases(rng, tier):
                 d = bytearray(good)
                 d[pos], d[pos + 1] = a, b
                 cases.append("parse %s %s %s" % (v, "auto" if pos % 2 else "with", hx(d)))
+        # one damaged character in each of two DIFFERENT fields (prefix, checksum, length, Q ratios, first / middle / last body digits)
+        ckd = 2 * VARIANTS[v][0]
+        fields = [(0, 2), (2, 2 + ckd), (2 + ckd, 4 + ckd), (4 + ckd, 6 + ckd), (6 + ckd, 8 + ckd), (ls // 2, ls // 2 + 2), (ls - 2, ls)]
+        for fa in range(len(fields)):
+            for fb in range(fa + 1, len(fields)):
+                for va, vb in ((0x47, 0x47), (0x40, 0x80), (0x67, 0x00)):
+                    d = bytearray(good)
+                    d[fields[fa][0] + rng.below(fields[fa][1] - fields[fa][0])] = va
+                    d[fields[fb][0] + rng.below(fields[fb][1] - fields[fb][0])] = vb
+                    for mode in ("auto", "with"):
+                        cases.append("parse %s %s %s" % (v, mode, hx(d)))
+                    if fa > 0:
+                        cases.append("parse %s %s %s" % (v, rng.choice(["auto", "empty"]), hx(d[2:])))
         # two damaged positions (error precedence)
         for _ in range(40 if tier == "quick" else 2000):
             d = bytearray(good)
@@ -242,6 +291,16 @@ def hex_buffer_cases(rng, tier):
                 cases.append("fmt %s %s empty %s" % (v, hx(b), hx(rng.bytes(L))))
             for L in range(0, size + 65):
                 cases.append("storebytes %s %s %s" % (v, hx(b), hx(rng.bytes(L))))
+        # much larger buffers: around every power of two up to 64 KiB (a length that is reduced modulo something, a block-wise
+        # encoder, an alignment-dependent path)
+        b = plausible_bin(rng, v)
+        big = sorted(set(x for k in range(8, 17) for x in range(2 ** k - 3, 2 ** k + 9)))
+        if tier == "quick":
+            big = [x for x in big if x < 5000] + [65535, 65536, 65538, 65539]
+        for L in big:
+            cases.append("fmt %s %s with %s" % (v, hx(b), hx(rng.bytes(L))))
+            cases.append("fmt %s %s empty %s" % (v, hx(b), hx(rng.bytes(L))))
+            cases.append("storebytes %s %s %s" % (v, hx(b), hx(rng.bytes(L))))
     return cases
 
 
@@ -300,6 +359,16 @@ def gen_hash_cases(rng, tier):
             for o in (0, 2, 1, 3, 8, 10, 16, 18, 31):
                 cases.append("hash %s %d %s" % (v, o, hx(d)))
         cases.append("hashbuf %s %s" % (v, hx(gen_data(rng, 300, 4))))
+    # input lengths around every integer literal that is new in the current source (empty on the audited tree)
+    import srcdict
+    for x in srcdict.derived_lengths(srcdict.new_literals()["ints"]):
+        if x <= 70000:
+            for r in (-1, 0, 1, 2, 3, 4, 5):
+                if x + r >= 0:
+                    v = rng.choice(VNAMES)
+                    d = gen_data(rng, x + r)
+                    for o in (0, 2, 30):
+                        cases.append("hash %s %d %s" % (v, o, hx(d)))
     return cases
 
 
@@ -455,6 +524,36 @@ def dist_body_cases(rng, tier):
                         a[pos], b[pos] = x, y
                         be = "dispatch" if tier == "quick" else BACKENDS[(x + y) % len(BACKENDS)]
                         cases.append("dbody %d %s %s %s" % (size, be, hx(a), hx(b)))
+        # block patterns: each 4-, 8- or 16-byte block of the two bodies is identical / differs in every byte / differs in every
+        # dibit by 3 / is random (a fast path or a horizontal reduction keyed on whole SIMD lanes or registers)
+        for blk in (4, 8, 16):
+            nblk = size // blk
+            if nblk < 1:
+                continue
+            import itertools
+            lim = 300 if tier == "quick" else 5000
+            if 4 ** nblk <= lim:
+                pats = list(itertools.product(range(4), repeat=nblk))
+            else:
+                # mostly "identical" / "all different" blocks (the patterns a whole-lane shortcut keys on), some arbitrary ones
+                pats = [tuple(rng.choice([0, 1]) if rng.chance(3, 4) else rng.below(4) for _ in range(nblk)) for _ in range(lim)]
+                pats += [tuple(1 if (m >> k) & 1 else 0 for k in range(nblk)) for m in range(min(2 ** nblk, 256))]
+            for pat in pats:
+                a, b = bytearray(rng.bytes(size)), bytearray(size)
+                for k, kind in enumerate(pat):
+                    for j in range(k * blk, (k + 1) * blk):
+                        if kind == 0:
+                            b[j] = a[j]
+                        elif kind == 1:
+                            b[j] = (a[j] + 1 + rng.below(255)) % 256
+                        elif kind == 2:
+                            b[j] = a[j] ^ 0xFF
+                        else:
+                            b[j] = rng.below(256)
+                for j in range(nblk * blk, size):
+                    b[j] = a[j]
+                for be in (BACKENDS if tier != "quick" else ["dispatch", BACKENDS[(sum(pat) + blk) % len(BACKENDS)]]):
+                    cases.append("dbody %d %s %s %s" % (size, be, hx(a), hx(b)))
         # every backend on random / adversarial bodies
         n = 300 if tier == "quick" else 20000
         for be in BACKENDS:
@@ -473,6 +572,46 @@ def dist_body_cases(rng, tier):
                 else:
                     a, b = rng.bytes(size), rng.bytes(size)
                 cases.append("dbody %d %s %s %s" % (size, be, hx(a), hx(b)))
+    return cases
+
+
+def dist_header_combo_cases(rng, tier):
+    """Whole hashes with the SAME body and checksum whose headers differ in SEVERAL fields at once: every combination of the low
+    nibbles of the two length codes and of the two Q2 (resp. Q1) ratios, both modes (a shortcut keyed on a packed / hashed header)."""
+    cases = []
+    vs = ["N"] if tier == "quick" else VNAMES
+    for v in vs:
+        ck = VARIANTS[v][0]
+        base = bytearray(plausible_bin(rng, v))
+        hi = rng.choice([0x10, 0x40, 0x90])
+        for which in (("q2",) if tier == "quick" else ("q2", "q1")):
+            for i in range(16):
+                for j in range(16):
+                    for k in range(16):
+                        for l in range(16):
+                            if tier == "quick" and (i * 4096 + j * 256 + k * 16 + l) % 2 and not (i ^ j) == (k ^ l):
+                                continue
+                            a, b = bytearray(base), bytearray(base)
+                            a[ck], b[ck] = hi + i, hi + j
+                            c = base[ck + 1]
+                            if which == "q2":
+                                a[ck + 1], b[ck + 1] = (k << 4) | (c & 15), (l << 4) | (c & 15)
+                            else:
+                                a[ck + 1], b[ck + 1] = (c & 0xF0) | k, (c & 0xF0) | l
+                            cases.append("cmp %s %s %s %s" % (v, hx(a), hx(b), "default" if (i + k) % 2 else "nolength"))
+    return cases
+
+
+def dict_pairs(rng):
+    """whole-hash pairs built from the dictionary-spliced binaries (empty on the audited tree)"""
+    cases = []
+    for v in VNAMES:
+        bins = dict_bins(rng, v)
+        for b in bins[:600]:
+            other = rng.choice([plausible_bin(rng, v), b, rng.choice(bins)])
+            for m in ("default", "nolength"):
+                cases.append("cmp %s %s %s %s" % (v, hx(b), hx(other), m))
+                cases.append("cmp %s %s %s %s" % (v, hx(other), hx(b), m))
     return cases
 
 
@@ -510,4 +649,5 @@ def dist_whole_cases(rng, tier):
             a[i], b[i] = 1, 2
         cases.append("cmp %s %s %s default" % (v, hx(a), hx(b)))
         cases.append("cmp %s %s %s nolength" % (v, hx(a), hx(b)))
+    cases += dict_pairs(rng)
     return cases
